@@ -97,15 +97,17 @@ fn check_one(c: &mut Case, name: &str, subject: &dyn SerSubject) -> Outcome {
     held(true, format!("{name}/{}", c.idx))
 }
 
+/// deliberately unlike the default split expression: splits on blanks only, so "cat;fox" is one
+/// token and one-letter words are kept (the default regex would give "cat", "fox" and drop "a")
 fn tok(s: &str) -> Vec<&str> {
-    s.split(|ch: char| ch == ' ' || ch == ';').filter(|t| !t.is_empty()).collect()
+    s.split(' ').filter(|t| !t.is_empty()).collect()
 }
 
 /// CountVectorizer with a function tokenizer: the documented guard
 fn check_function_tokenizer(c: &mut Case) -> Outcome {
     use linfa_preprocessing::{CountVectorizer, Tokenizer};
     let docs: Vec<String> = {
-        let words = ["fox", "dog", "cat;fox", "Dog", "bird", "ant"];
+        let words = ["fox", "dog", "cat;fox", "Dog", "bird", "ant", "a", "x-y"];
         let n = c.rng.gen_range(2..7);
         (0..n).map(|_| (0..c.rng.gen_range(1..7)).map(|_| words[c.rng.gen_range(0..words.len())]).collect::<Vec<_>>().join(" ")).collect()
     };
@@ -147,6 +149,31 @@ fn check_function_tokenizer(c: &mut Case) -> Outcome {
             Ok(after) => ensure!(after == before, "C19/behaviour/differs", {"value": "count-vectorizer-function-tokenizer", "format": fmt,
                 "original": before.chars().take(300).collect::<String>(), "restored": after.chars().take(300).collect::<String>()}),
             Err(e) => bail!("C19/behaviour/restored-fails", {"value": "count-vectorizer-function-tokenizer", "format": fmt, "error": e}),
+        }
+        // second generation: the repaired copy is again a value with a function tokenizer, so a copy
+        // of it must again refuse to transform until the function is redefined -- and agree afterwards
+        let second: Result<CountVectorizer, String> = if fmt == "bincode" {
+            bincode::serialize(&restored).map_err(|e| format!("{e}")).and_then(|b| bincode::deserialize(&b).map_err(|e| format!("{e}")))
+        } else {
+            serde_json::to_string(&restored).map_err(|e| format!("{e}")).and_then(|s| serde_json::from_str(&s).map_err(|e| format!("{e}")))
+        };
+        let mut second = match second {
+            Ok(r) => r,
+            Err(e) => bail!("C19/roundtrip/second-trip-error", {"value": "count-vectorizer-function-tokenizer", "format": fmt, "error": e}),
+        };
+        match guarded(|| canon(&second)) {
+            Err(p) => bail!("C19/tokenizer-guard/panic", {"format": fmt, "generation": 2, "panic": p}),
+            Ok(Ok(s2)) => {
+                // answering is only acceptable if the answer is the original's
+                ensure!(s2 == before, "C19/tokenizer-guard/second-generation-copy-answers-with-another-tokenizer",
+                    {"format": fmt, "original": before.chars().take(300).collect::<String>(), "second_generation": s2.chars().take(300).collect::<String>()});
+            }
+            Ok(Err(e)) => ensure!(e.contains("TokenizerNotSet"), "C19/tokenizer-guard/wrong-error", {"format": fmt, "generation": 2, "error": e}),
+        }
+        second.force_tokenizer_function_redefinition(tok);
+        match canon(&second) {
+            Ok(after) => ensure!(after == before, "C19/behaviour/differs", {"value": "count-vectorizer-function-tokenizer (second generation)", "format": fmt}),
+            Err(e) => bail!("C19/behaviour/restored-fails", {"value": "count-vectorizer-function-tokenizer (second generation)", "format": fmt, "error": e}),
         }
     }
     c.note("docs", json!(docs));
